@@ -222,3 +222,44 @@ Section OneLine.
     rewrite (IH more Hr). destruct (results_in_order r) as [t| | |]; cbn [bind]; reflexivity.
   Qed.
 End OneLine.
+
+(* ---------- C08: a trailing '-- comment' after a one-line statement -------------------------------------------------------------------- *)
+Section TrailingComment.
+  Variable parse_stmt : string -> res (option pyval).
+
+  (* l' = code ++ "--" ++ text (as split sees it): the conditions are again about the line alone *)
+  Record one_line_with_trailing_comment (l l' code text : string) : Prop := {
+    tc_sub : re_sub RegexAst.re_equal_without_space " = " l = Ok l';
+    tc_not_comment : (startswith (strip l') MYSQL_COM || startswith (strip l') IN_COM) = false;
+    tc_has_inline : contains l' IN_COM = true;
+    tc_outside_quotes : re_search_b RegexAst.re_in_comment l' = Ok false;
+    tc_split : exists rest, split l' IN_COM = code :: text :: rest;
+    tc_no_close : contains l' CL_COM = false;
+    tc_no_open : contains l' OP_COM = false;
+    tc_code_no_close : contains code CL_COM = false;
+    tc_not_skipped : re_match_b RegexAst.re_skip_regex (upper (code_of code)) = Ok false;
+    tc_not_set : re_match_b RegexAst.re_set_statement (upper (code_of code)) = Ok false;
+    tc_ends : endswith (code_of code) ";" = true;
+    tc_nonempty : String.eqb (code_of code) "" = false;
+    tc_body : String.eqb (drop_last (code_of code)) "" = false
+  }.
+
+  (* the statement is parsed exactly as without the comment; the comment text goes to the comments output and nowhere else *)
+  Theorem trailing_comment_neutral : forall l l' code text not_last, one_line_with_trailing_comment l l' code text ->
+    process_line parse_stmt lm0 l not_last =
+    (do r <- parse_stmt (drop_last (code_of code)); Ok (lm0, (entities_of r, [text]))).
+  Proof.
+    intros l l' code text not_last [Hsub Hnc Hin Hq [rest Hsp] Hcl Hop Hccl Hsk Hset Hend Hne Hb].
+    unfold process_line.
+    assert (Hpre : pre_process_line lm0 l = Ok (code, false, [], [text])).
+    { unfold pre_process_line. rewrite Hsub. cbn [bind multi_line_comment lm0]. rewrite Hnc. cbn [negb bind].
+      rewrite Hin. unfold process_in_comment. rewrite Hq. cbn [bind]. rewrite Hsp. cbn [bind].
+      rewrite Hop. cbn [bind block_comments lm0]. rewrite Hccl. cbn [andb bind].
+      rewrite (startswith_false_of_contains l' OP_COM Hop) by discriminate.
+      rewrite (startswith_false_of_contains l' CL_COM Hcl) by discriminate. cbn [andb]. reflexivity. }
+    rewrite Hpre. cbn [bind]. fold (code_of code). rewrite Hsk, Hset. cbn [bind set_line set_was_in_line statement lm0].
+    rewrite Hend, Hne. cbn [negb andb orb nonempty]. rewrite Hne. cbn [negb andb orb].
+    rewrite Hb. cbn [negb andb bind].
+    destruct (parse_stmt (drop_last (code_of code))) as [r| | |]; cbn [bind]; try reflexivity.
+  Qed.
+End TrailingComment.
